@@ -89,6 +89,8 @@ structure Client where
   nextGid : Nat := 0
   threads : Array Thread := #[]
   pay : Array (Nat × Nat) := #[]
+  /-- OptimisticLock: emit the version tokens XB / XE -/
+  versioned : Bool := false
   deriving Repr, Inhabited
 
 def mkClient (nlocks : Nat) (kinds : Array GKind) (progs : Array (Array Op)) : Client :=
@@ -131,6 +133,15 @@ def spawnStart (P : WParams) (c : Client) (lk : Nat) (r : Req) : Client × Nat :
     | none => s1
   (setLockSt c lk s2, a)
 
+/-- token announcing the end of the exclusive grant owned by X variable `v` (OptimisticLock only) -/
+def xendTok (c : Client) (v : Nat) : Out :=
+  let gv := getVar c v
+  if c.versioned && c.kinds.getD v .S == .X && (getGhost c v).isSome then
+    match gv.own with
+    | some (lk, _) => [s!"XE{lk}:{hex32 gv.nver}"]
+    | none => []
+  else []
+
 /-- the common tail `dst = std::move(tmp)` of every instruction that produces a guard:
     phase `p0`: release what `dst` owns (blocks), phase `p0+1`: take the temporary. -/
 def assignTail (c : Client) (t : Nat) (dst : Nat) (rel : Nat) (k : Nat) (res : String) :
@@ -141,7 +152,7 @@ def assignTail (c : Client) (t : Nat) (dst : Nat) (rel : Nat) (k : Nat) (res : S
     match (getVar c dst).own with
     | some (lk', a') =>
       let gid := getGhost c dst
-      let out := match gid with | some g => [s!"G-{g}"] | none => []
+      let out := (match gid with | some g => [s!"G-{g}"] | none => []) ++ xendTok c dst
       (setThread c t { th with pend := .rel lk' a' (getVar c dst).nver }, out, .block)
     | none => (c, [], .next)
   else
@@ -151,6 +162,7 @@ def assignTail (c : Client) (t : Nat) (dst : Nat) (rel : Nat) (k : Nat) (res : S
     (c, [s!"R{k}={res}"], .doneOp)
 
 def modeOfKind (k : GKind) : Mode := (k.mode?).getD .S
+
 
 /-- local code of instruction `op` at phase `ph` -/
 def runPhase (P : WParams) (c : Client) (t : Nat) (k : Nat) (op : Op) (ph : Nat) : Client × Out × PhaseRes :=
@@ -168,7 +180,7 @@ def runPhase (P : WParams) (c : Client) (t : Nat) (k : Nat) (op : Op) (ph : Nat)
       let c := { c with nextGid := gid + 1 }
       let c := setThread c t { th with tmp := { own := some (lk, th.ag), lk := some lk, ver := v, nver := v + 1 },
                                         tmpGid := some gid }
-      (c, [s!"G+{gid}:{lk}:{m.toStr}"], .next)
+      (c, [s!"G+{gid}:{lk}:{m.toStr}"] ++ (if c.versioned && m == .X then [s!"XB{lk}:{hex32 v}"] else []), .next)
     | 2 => assignTail c t dst 0 k "1"
     | _ => assignTail c t dst 1 k "1"
   | .dtor v =>
@@ -176,7 +188,7 @@ def runPhase (P : WParams) (c : Client) (t : Nat) (k : Nat) (op : Op) (ph : Nat)
     | 0 =>
       match (getVar c v).own with
       | some (lk', a') =>
-        let out := match getGhost c v with | some g => [s!"G-{g}"] | none => []
+        let out := (match getGhost c v with | some g => [s!"G-{g}"] | none => []) ++ xendTok c v
         (setThread c t { th with pend := .rel lk' a' (getVar c v).nver }, out, .block)
       | none => (c, [], .next)
     | _ =>
@@ -188,7 +200,7 @@ def runPhase (P : WParams) (c : Client) (t : Nat) (k : Nat) (op : Op) (ph : Nat)
     | 0 =>
       match (getVar c dst).own with
       | some (lk', a') =>
-        let out := match getGhost c dst with | some g => [s!"G-{g}"] | none => []
+        let out := (match getGhost c dst with | some g => [s!"G-{g}"] | none => []) ++ xendTok c dst
         (setThread c t { th with pend := .rel lk' a' (getVar c dst).nver }, out, .block)
       | none => (c, [], .next)
     | _ =>
@@ -204,7 +216,7 @@ def runPhase (P : WParams) (c : Client) (t : Nat) (k : Nat) (op : Op) (ph : Nat)
     | 0 =>
       match (getVar c dst).own with
       | some (lk', a') =>
-        let out := match getGhost c dst with | some g => [s!"G-{g}"] | none => []
+        let out := (match getGhost c dst with | some g => [s!"G-{g}"] | none => []) ++ xendTok c dst
         (setThread c t { th with pend := .rel lk' a' (getVar c dst).nver }, out, .block)
       | none => (c, [], .next)
     | _ =>
@@ -236,7 +248,9 @@ def runPhase (P : WParams) (c : Client) (t : Nat) (k : Nat) (op : Op) (ph : Nat)
         let seen := match agentLoc c lk th.ag with | .held _ s => s | _ => 0
         let v := P.castVer seen
         let c := setThread c t { th with tmp := { own := some (lk, th.ag), lk := some lk, ver := v, nver := v + 1 } }
-        let out := match th.tmpGid with | some g => [s!"GU{g}:X"] | none => []
+        let out := match th.tmpGid with
+          | some g => [s!"GU{g}:X"] ++ (if c.versioned then [s!"XB{lk}:{hex32 v}"] else [])
+          | none => []
         (c, out, .next)
       | none => (c, [], .next)
     | 2 => assignTail c t dst 0 k (if th.tmp.own.isSome then "1" else "0")
@@ -247,10 +261,11 @@ def runPhase (P : WParams) (c : Client) (t : Nat) (k : Nat) (op : Op) (ph : Nat)
       let sv := getVar c src
       match sv.own with
       | some (lk, a) =>
+        let xe := xendTok c src
         let c := setVar c src { sv with own := none }
         let g := getGhost c src
         let c := setGhost c src none
-        (setThread c t { th with pend := .dng lk a sv.nver, ag := a, tmp := { lk := some lk }, tmpGid := g }, [], .block)
+        (setThread c t { th with pend := .dng lk a sv.nver, ag := a, tmp := { lk := some lk }, tmpGid := g }, xe, .block)
       | none =>
         (setThread c t { th with tmp := {}, tmpGid := none, ag := 0 }, [], .next)
     | 1 =>
@@ -307,7 +322,7 @@ def runPhase (P : WParams) (c : Client) (t : Nat) (k : Nat) (op : Op) (ph : Nat)
         let c := { c with nextGid := gid + 1 }
         let c := setThread c t { th with tmp := { own := some (lk, th.ag), lk := some lk, ver := nv, nver := nv + 1 },
                                           tmpGid := some gid }
-        (c, [s!"G+{gid}:{lk}:{m.toStr}"], .next)
+        (c, [s!"G+{gid}:{lk}:{m.toStr}"] ++ (if c.versioned && m == .X then [s!"XB{lk}:{hex32 nv}"] else []), .next)
       | .done r =>
         let nv := P.verOf r
         let c := setVar c src { gv with ver := nv }
